@@ -2,6 +2,7 @@ package checks
 
 import (
 	"bytes"
+	"encoding/csv"
 	"encoding/hex"
 	"encoding/json"
 	"fmt"
@@ -34,6 +35,9 @@ type origMaterial struct {
 	PubPolyBz []byte            // what the original hot nodes retained (nil if unknown)
 	Shares    map[string]string // name -> share (nil if unknown)
 	GroupKey  []byte
+	// RawLines: dump lines (JSON text as somebody wrote it to the board file) that stand behind
+	// position k of Log in the dump the tool reads
+	RawLines map[int]string
 }
 
 // reinitRestarts: where the restored machines are stopped and reopened from their databases (the
@@ -77,6 +81,31 @@ func reinitAndCheck(r *kit.Run, om origMaterial, label string, adapt bool, strip
 			l2 = append(l2, m)
 		}
 		log = l2
+	}
+	// the tool reads the dump from a CSV file (one JSON message per row): the messages take that
+	// way too, through the tool's own reader
+	{
+		dir := world.NewDir("c20dump")
+		f, err := os.Create(dir + "/dump.csv")
+		if err != nil {
+			r.Infra("dump file: %v", err)
+		}
+		cw := csv.NewWriter(f)
+		for k, m := range log {
+			_ = cw.Write([]string{string(world.MustJSON(m))})
+			if raw, ok := om.RawLines[k]; ok && !stripSelfConfirms {
+				_ = cw.Write([]string{raw})
+			}
+		}
+		cw.Flush()
+		f.Close()
+		read, err := utils.ReadLogMessages(dir+"/dump.csv", ',', false, 0)
+		os.RemoveAll(dir)
+		if err != nil {
+			viol("dump-unreadable", err.Error())
+			return
+		}
+		log = read
 	}
 	re, err := func() (re *types.ReDKG, err error) {
 		defer func() {
@@ -355,6 +384,37 @@ func c20(tier string, args []string) int {
 			{"unjudged-dated-report-in-dump/", "a signed reconstruction-failure report of participant 1 dated in 2100", insertAfter(0, world.SignedMessage(lastOM.Round, "signature_reconstruction_failed",
 				world.MustJSON(map[string]interface{}{"BatchID": "none", "ParticipantId": 1, "Error": "junk", "CreatedAt": far}), p1.Name, p1.KeyPair.Priv, ""))},
 		}
+		// (5) the round went on signing and, later, a second round with the same participants was
+		// proposed and never confirmed; (6) participant 0's own signed confirmation posted again
+		// under the deal event's name before the deals phase; (7) a line that leaves every field
+		// but the recipient out, right behind participant 0's first deal
+		{
+			idx := make([]int, lastRec.W.N)
+			for i := range idx {
+				idx[i] = i
+			}
+			req2 := lastRec.W.InitProposal(lastRec.W.T, idx)
+			req2.CreatedAt = world.T0.Add(99)
+			payload := world.MustJSON(req2)
+			later := world.SignedMessage(world.RoundID(payload), "event_sig_proposal_init", payload, lastRec.W.Nodes[0].Name, lastRec.W.Nodes[0].KeyPair.Priv, "")
+			junks = append(junks, struct {
+				key  string
+				name string
+				log  []storage.Message
+			}{"later-proposal-in-dump/", "the opening proposal of a second round (never confirmed) posted after the round went on signing", insertAfter(len(lastOM.Log)-1, later)})
+			for k, m := range lastOM.Log {
+				if m.Event == "event_sig_proposal_confirm_by_participant" && m.SenderAddr == lastOM.Names[0] {
+					relabelled := m
+					relabelled.Event = "event_dkg_deal_confirm_received"
+					junks = append(junks, struct {
+						key  string
+						name string
+						log  []storage.Message
+					}{"relabelled-signed-line-in-dump/", "participant 0's signed confirmation posted again under the deal event's name", insertAfter(k, relabelled)})
+					break
+				}
+			}
+		}
 		for _, j := range junks {
 			for _, adapted := range []bool{false, true} {
 				if r.TimeUp() {
@@ -370,6 +430,21 @@ func c20(tier string, args []string) int {
 				reinitAndCheck(r, omJ, label, adapted, adapted)
 				c20KeyPrefix = ""
 				scen++
+			}
+		}
+	}
+	// (7) a hand-written line in the board file that leaves every field but the recipient out, right
+	// behind participant 0's first deal (every node refuses a line without an event)
+	if lastOM.Round != "" {
+		for k, m := range lastOM.Log {
+			if m.Event == "event_dkg_deal_confirm_received" && m.SenderAddr == lastOM.Names[0] && m.RecipientAddr != lastOM.Names[0] {
+				omR := lastOM
+				omR.RawLines = map[int]string{k: `{"recipient":""}`}
+				c20KeyPrefix = "line-with-fields-left-out-in-dump/"
+				reinitAndCheck(r, omR, "recorded ceremony with a line that leaves every field but the recipient out behind participant 0's first deal in the dump", false, false)
+				c20KeyPrefix = ""
+				scen++
+				break
 			}
 		}
 	}
